@@ -76,8 +76,10 @@ theorem createDataArray_rejected (s : Store) (b : ObjId) (n t i c dt sh : String
     by_cases hd : (blkFindKey s b "A" n).isSome = true
     · simp [hd]
     · by_cases hs : dtypeStorable dt = true
-      · obtain ⟨s', g, hk⟩ := createInBlock_ok_of_checks s b "A" n t i c hc (by simpa using hd)
-        simp [hd, hs, hk] at h
+      · by_cases hr : sh = "[]"
+        · simp [hd, hs, hr]
+        · obtain ⟨s', g, hk⟩ := createInBlock_ok_of_checks s b "A" n t i c hc (by simpa using hd)
+          simp [hd, hs, hr, hk] at h
       · simp [hd, hs]
 
 theorem createTag_rejected (s : Store) (b : ObjId) (n t i c pos : String) (e : Err)
